@@ -19,7 +19,8 @@ response context, the message it encodes and SIG/SREP; Responder::new certifies 
 (5) make_response adds exactly SIG, NONC, PATH, SREP, CERT, INDX from the batch's SREP message, the request's nonce, get_paths(idx),
 this responder's certificate and the same idx, all taken from one enumerate().next() element that also supplies the
 destination address; (6) Google responses use encode(), RfcDraft13 encode_framed();
-(7) add_errors runs only on the true edge of should_add_error(), which is false whenever fault_percentage == 0; the
+(5b) the tree the responder signs is built under the C04 level-structure facts (odd levels padded, node pairs consumed two by two, levels cleared on
+reset), so the signed ROOT is the root the returned PATH recomputes; (7) add_errors runs only on the true edge of should_add_error(), which is false whenever fault_percentage == 0; the
 Bernoulli ratio is (fault_percentage, 100); new_deliberately_invalid is only called from grease.
 """
 NOT_DECIDED = ("hash/signature values; number of PATH elements = depth of the batch (loop-count fact); the share of faulty "
